@@ -328,6 +328,21 @@ for it in range(%d):
                         if (got or b'') != lr[pos:]:
                             why = 'read-rest at %%d of record %%d' %% (pos, k)
                         pos = len(lr)
+                # the record is used up: the next sized read / skip reports the end of the logical record (None / 0) instead of
+                # running into the next record (a second one would move on to the next record: that is the reader's protocol)
+                # (after a read-rest the trailer has been consumed and the next read starts the next record: not checked there)
+                for _more in range(rnd.randint(0, 1) if op in ('read', 'skip') else 0):
+                    if why is None:
+                        if rnd.random() < 0.5:
+                            got = r.readLrBytes(rnd.randint(1, 9))
+                            if got not in (None, b''):
+                                why = 'read after the end of record %%d returned %%r' %% (k, got)
+                        else:
+                            got = r.skipLrBytes(rnd.randint(1, 9))
+                            if got not in (None, 0):
+                                why = 'skip after the end of record %%d returned %%r' %% (k, got)
+                if why is None and r.tellLr() != starts[k]:
+                    why = 'tellLr() drifted to %%r after using up record %%d at %%d' %% (r.tellLr(), k, starts[k])
                 if why:
                     break
         if why is None and tif:
